@@ -406,6 +406,9 @@ pub fn gen_session(out: &mut Out, rng: &mut Rng, cfg: &HistCfg) {
             }
         } else if choice < 84 && cfg.summary {
             let s = gen_strings(rng, non_ascii);
+            // now and then a text with a NUL character inside or at its end (summary strings are
+            // stored with an explicit length AND a terminator)
+            let s = if rng.chance(1, 12) { format!("{s}\u{0}{}", rng.pick(&["", "tail"])) } else { s };
             match rng.below(8) {
                 0 => out.req("sum_set", format!("sum_set author {}", hex_of_str(&s))),
                 1 => out.req("sum_set", format!("sum_set subject {}", hex_of_str(&s))),
